@@ -1,7 +1,16 @@
-// C01 harness: histories on two etl fixed-capacity vectors (impl leg) vs two std::vector (reference leg).
+// C01 harness: histories on two etl fixed-capacity vectors / stacks (impl leg) vs two std::vector / std::stack
+// (reference leg).
+//
+// The file is one translation unit when compiled plainly, and is compiled in parts (-DC01_PART=k, see pcxx.py) by the
+// check so that the element-type x capacity instantiations build in parallel: part 0 holds main(), the parser and the
+// reference leg, every part holds the flavours listed in its `#if PART(k)` block.
 #include "common.hpp"
 
 #include <algorithm>
+#include <memory>
+#include <stack>
+#include <string>
+#include <type_traits>
 #include <vector>
 
 #include <etl/inplace_vector.hpp>
@@ -10,32 +19,105 @@
 
 using namespace vh;
 
-// non-trivial element: selects static_vector_non_trivial_storage / the non-defaulted special members
+#if defined(C01_PART)
+    #define PART(k) (C01_PART == (k))
+#else
+    #define PART(k) 1
+#endif
+
+// ---------------------------------------------------------------------------------------------------------------------
+// element types.  get(e) is the int an element stands for; a self-checking element answers a poison value when it
+// was not produced by one of its constructors / assignments (e.g. by a bytewise copy of the storage).
+inline long g_live = 0;   // live instances of the instrumented element types
+static bool pred_of(int id, int v);   // the shared predicate family (defined below)
+
+// non-trivial element: selects static_vector_non_trivial_storage / the non-defaulted special members; the copy
+// constructor is NOT noexcept
 struct Tracked {
-    static inline long live = 0;
     int v{0};
-    Tracked() { ++live; }
-    Tracked(int x) : v{x} { ++live; }   // NOLINT
-    Tracked(Tracked const& o) : v{o.v} { ++live; }
-    Tracked(Tracked&& o) noexcept : v{o.v} { ++live; }
+    Tracked() { ++g_live; }
+    Tracked(int x) : v{x} { ++g_live; }   // NOLINT
+    Tracked(Tracked const& o) : v{o.v} { ++g_live; }
+    Tracked(Tracked&& o) noexcept : v{o.v} { ++g_live; }
     auto operator=(Tracked const& o) -> Tracked& { v = o.v; return *this; }
     auto operator=(Tracked&& o) noexcept -> Tracked& { v = o.v; return *this; }
-    ~Tracked() { --live; }
-    operator int() const { return v; }   // NOLINT
+    ~Tracked() { --g_live; }
     friend bool operator==(Tracked const& a, Tracked const& b) { return a.v == b.v; }
     friend bool operator<(Tracked const& a, Tracked const& b) { return a.v < b.v; }
 };
-
-static bool pred_of(int id, int v)
-{
-    auto key = v >= 0 ? v / 16 : -((-v + 15) / 16);
-    switch (id) {
-    case 0: return (key % 2) == 0;
-    case 1: return key == 1;
-    case 2: return key < 2;
-    case 3: return true;
-    default: return false;
+// noexcept but non-trivial copy/move: every object remembers its own address, so an object that came into being by
+// copying bytes is recognised (its self pointer is the source's address)
+struct NxCopy {
+    int v{0};
+    NxCopy const* self{this};
+    NxCopy() noexcept { ++g_live; }
+    NxCopy(int x) noexcept : v{x} { ++g_live; }   // NOLINT
+    NxCopy(NxCopy const& o) noexcept : v{o.ok() ? o.v : -777} { ++g_live; }
+    NxCopy(NxCopy&& o) noexcept : v{o.ok() ? o.v : -777} { ++g_live; }
+    auto operator=(NxCopy const& o) noexcept -> NxCopy& { v = o.ok() ? o.v : -777; return *this; }
+    auto operator=(NxCopy&& o) noexcept -> NxCopy& { v = o.ok() ? o.v : -777; return *this; }
+    ~NxCopy() { --g_live; }
+    [[nodiscard]] bool ok() const noexcept { return self == this; }
+    friend bool operator==(NxCopy const& a, NxCopy const& b) { return a.v == b.v; }
+    friend bool operator<(NxCopy const& a, NxCopy const& b) { return a.v < b.v; }
+};
+// move-only, self-checking; a moved-from object is marked
+struct MoveOnly {
+    int v{0};
+    MoveOnly const* self{this};
+    MoveOnly() noexcept { ++g_live; }
+    MoveOnly(int x) noexcept : v{x} { ++g_live; }   // NOLINT
+    MoveOnly(MoveOnly const&) = delete;
+    MoveOnly(MoveOnly&& o) noexcept : v{o.ok() ? o.v : -777} { o.v = -555; ++g_live; }
+    auto operator=(MoveOnly const&) -> MoveOnly& = delete;
+    auto operator=(MoveOnly&& o) noexcept -> MoveOnly&
+    {
+        if (this != &o) { v = o.ok() ? o.v : -777; o.v = -555; }
+        return *this;
     }
+    ~MoveOnly() { --g_live; }
+    [[nodiscard]] bool ok() const noexcept { return self == this; }
+    friend bool operator==(MoveOnly const& a, MoveOnly const& b) { return a.v == b.v; }
+    friend bool operator<(MoveOnly const& a, MoveOnly const& b) { return a.v < b.v; }
+};
+// trivial, but not an arithmetic type (trivial storage: array<Pod, N>); w shadows v
+struct Pod {
+    int v;
+    int w;
+};
+inline bool operator==(Pod const& a, Pod const& b) { return a.v == b.v && a.w == b.w; }
+inline bool operator<(Pod const& a, Pod const& b) { return a.v < b.v; }
+static_assert(std::is_trivial_v<Pod>);
+static_assert(!std::is_trivially_copy_constructible_v<NxCopy> && std::is_nothrow_copy_constructible_v<NxCopy>);
+
+template <typename T> inline T mk(int v) { return T(v); }
+template <> inline Pod mk<Pod>(int v) { return Pod{v, v * 7}; }
+// std::string: 0 is the empty string (what T{} gives), v > 0 a zero-padded 24-digit string (heap-allocated, and
+// lexicographic order = numeric order)
+template <> inline std::string mk<std::string>(int v)
+{
+    if (v == 0) { return {}; }
+    auto d = std::to_string(v);
+    return std::string(24 - d.size(), '0') + d;
+}
+inline int get(int e) { return e; }
+inline int get(Tracked const& e) { return e.v; }
+inline int get(NxCopy const& e) { return e.ok() ? e.v : -999; }
+inline int get(MoveOnly const& e) { return e.ok() ? e.v : -999; }
+inline int get(Pod const& e) { return e.w == e.v * 7 ? e.v : -999; }
+inline int get(std::string const& e) { return e.empty() ? 0 : (e.size() == 24 ? std::stoi(e) : -999); }
+template <typename T> inline constexpr bool counted_v = std::is_same_v<T, Tracked> || std::is_same_v<T, NxCopy> || std::is_same_v<T, MoveOnly>;
+// the argument handed to emplace-style members: the int itself where T is constructed from an int
+template <typename T> inline auto mkarg(int v)
+{
+    if constexpr (std::is_same_v<T, int> || counted_v<T>) { return v; } else { return mk<T>(v); }
+}
+template <typename T> inline std::vector<T> mkvec(std::vector<i64> const& xs)
+{
+    std::vector<T> r;
+    r.reserve(xs.size());
+    for (auto x : xs) { r.push_back(mk<T>(static_cast<int>(x))); }
+    return r;
 }
 
 struct Step {
@@ -45,195 +127,15 @@ struct Step {
     std::vector<i64> xs;
 };
 
-static std::vector<Step> parse(Toks& in)
-{
-    std::vector<Step> steps;
-    auto k = in.num();
-    for (i64 i = 0; i < k; ++i) {
-        Step s;
-        s.op = in.str();
-        auto need = [&](int n) { for (int j = 0; j < n; ++j) { s.a.push_back(in.num()); } };
-        auto const& o = s.op;
-        if (o == "swp" || o == "rel") { }
-        else {
-            s.t = static_cast<int>(in.num());
-            if (o == "pb" || o == "eb" || o == "era" || o == "rsz" || o == "eif" || o == "erv" || o == "at" || o == "tpb" || o == "upb") { need(1); }
-            else if (o == "icr" || o == "irv" || o == "emp" || o == "err" || o == "rsv" || o == "asn") { need(2); }
-            else if (o == "inn") { need(3); }
-            else if (o == "irg") { need(1); s.xs = in.list(); }
-            else if (o == "asr") { s.xs = in.list(); }
-        }
-        steps.push_back(s);
-    }
-    return steps;
-}
-
-using SV = std::vector<int>;
-
-template <typename Vec>
-static void observe_one(Out& o, Vec const& v)
-{
-    o.num(static_cast<i64>(v.size())).b(v.empty());
-    if constexpr (requires { v.full(); }) { o.b(v.full()); } else { o.b(v.size() == v.capacity()); }
-    o.num(static_cast<i64>(v.end() - v.begin()));
-    for (auto const& x : v) { o.num(static_cast<int>(x)); }
-}
-static void observe_std(Out& o, SV const& v, std::size_t cap)
-{
-    o.num(static_cast<i64>(v.size())).b(v.empty()).b(v.size() == cap).num(static_cast<i64>(v.size()));
-    for (auto x : v) { o.num(x); }
-}
-
-// ---- reference: std::vector with the documented preconditions; false = outside the domain
-static bool std_step(Step const& s, SV (&v)[2], std::size_t cap, Out& o)
-{
-    auto& x   = v[s.t];
-    auto& y   = v[1 - s.t];
-    auto sz   = static_cast<i64>(x.size());
-    auto room = static_cast<i64>(cap) - sz;
-    auto const& op = s.op;
-    auto A = [&](int i) { return s.a[static_cast<std::size_t>(i)]; };
-    if (op == "pb" || op == "eb") { if (room < 1) { return false; } x.push_back(static_cast<int>(A(0))); }
-    else if (op == "pop") { if (sz == 0) { return false; } x.pop_back(); }
-    else if (op == "icr" || op == "irv" || op == "emp") {
-        if (A(0) < 0 || A(0) > sz || room < 1) { return false; }
-        { auto it = x.insert(x.begin() + A(0), static_cast<int>(A(1))); o.num(it - x.begin()); }
-    } else if (op == "inn") {
-        if (A(0) < 0 || A(0) > sz || A(1) < 0 || A(1) > room) { return false; }
-        { auto it = x.insert(x.begin() + A(0), static_cast<std::size_t>(A(1)), static_cast<int>(A(2))); o.num(it - x.begin()); }
-    } else if (op == "irg") {
-        if (A(0) < 0 || A(0) > sz || static_cast<i64>(s.xs.size()) > room) { return false; }
-        SV src(s.xs.begin(), s.xs.end());
-        { auto it = x.insert(x.begin() + A(0), src.begin(), src.end()); o.num(it - x.begin()); }
-    } else if (op == "era") {
-        if (A(0) < 0 || A(0) >= sz) { return false; }
-        o.num(x.erase(x.begin() + A(0)) - x.begin());
-    } else if (op == "err") {
-        if (A(0) < 0 || A(0) > A(1) || A(1) > sz) { return false; }
-        o.num(x.erase(x.begin() + A(0), x.begin() + A(1)) - x.begin());
-    } else if (op == "clr") { x.clear(); }
-    else if (op == "rsz") { if (A(0) < 0 || A(0) > static_cast<i64>(cap)) { return false; } x.resize(static_cast<std::size_t>(A(0))); }
-    else if (op == "rsv") { if (A(0) < 0 || A(0) > static_cast<i64>(cap)) { return false; } x.resize(static_cast<std::size_t>(A(0)), static_cast<int>(A(1))); }
-    else if (op == "asn") { if (A(0) < 0 || A(0) > static_cast<i64>(cap)) { return false; } x.assign(static_cast<std::size_t>(A(0)), static_cast<int>(A(1))); }
-    else if (op == "asr") { if (s.xs.size() > cap) { return false; } SV src(s.xs.begin(), s.xs.end()); x.assign(src.begin(), src.end()); }
-    else if (op == "swp") { v[0].swap(v[1]); }
-    else if (op == "cpa") { x = y; }
-    else if (op == "mva") { x = std::move(y); y.clear(); }
-    else if (op == "cpc") { SV c(x); o.b(c == x).num(static_cast<i64>(c.size())); for (auto e : c) { o.num(e); } }
-    else if (op == "mrt") { SV tmp(std::move(x)); o.num(static_cast<i64>(tmp.size())); for (auto e : tmp) { o.num(e); } x = std::move(tmp); }
-    else if (op == "eif") { auto id = static_cast<int>(A(0)); o.num(static_cast<i64>(std::erase_if(x, [&](int e) { return pred_of(id, e); }))); }
-    else if (op == "erv") { o.num(static_cast<i64>(std::erase(x, static_cast<int>(A(0))))); }
-    else if (op == "rel") { auto& a = v[0]; auto& b = v[1]; o.b(a == b).b(a != b).b(a < b).b(a <= b).b(a > b).b(a >= b); }
-    else if (op == "at") { if (A(0) < 0 || A(0) >= sz) { return false; } o.num(x[static_cast<std::size_t>(A(0))]); }
-    else if (op == "fr") { if (sz == 0) { return false; } o.num(x.front()); }
-    else if (op == "bk") { if (sz == 0) { return false; } o.num(x.back()); }
-    else if (op == "sca") { auto& r = x; x = r; }
-    else if (op == "ssw") { x.swap(x); }
-    // inplace_vector interface
-    else if (op == "tpb") { if (room < 1) { o.b(false); } else { x.push_back(static_cast<int>(A(0))); o.b(true); } }
-    else if (op == "upb") { if (room < 1) { return false; } x.push_back(static_cast<int>(A(0))); }
-    else if (op == "ivc") { SV c(x); o.num(static_cast<i64>(c.size())); for (auto e : c) { o.num(e); } }
-    else if (op == "ivm") { SV c(std::move(x)); x.clear(); o.num(static_cast<i64>(c.size())); for (auto e : c) { o.num(e); } }
-    else { return false; }
-    return true;
-}
-
 // position -> iterator without pointer arithmetic on invalid positions (the harness must not commit UB itself
 // when it hands the library an out-of-range position; for capacity 0, begin() is a null pointer)
 template <typename It>
 static auto at_off(It b, i64 off) -> It
 {
-    using P = decltype(&*b);
-    (void)sizeof(P);
     return reinterpret_cast<It>(reinterpret_cast<std::uintptr_t>(b) + static_cast<std::uintptr_t>(off) * sizeof(*b));
 }
 
-// ---- impl: static_vector
-template <typename Vec, typename T>
-static void sv_step(Step const& s, Vec (&v)[2], Out& o)
-{
-    auto& x = v[s.t];
-    auto& y = v[1 - s.t];
-    auto const& op = s.op;
-    auto A = [&](int i) { return s.a[static_cast<std::size_t>(i)]; };
-    auto val = [&](int i) { return T(static_cast<int>(A(i))); };
-    if (op == "pb") { x.push_back(val(0)); }
-    else if (op == "eb") { x.emplace_back(static_cast<int>(A(0))); }
-    else if (op == "pop") { x.pop_back(); }
-    else if (op == "icr") { T c = val(1); o.num(x.insert(at_off(x.begin(), A(0)), c) - x.begin()); }
-    else if (op == "irv") { o.num(x.insert(at_off(x.begin(), A(0)), val(1)) - x.begin()); }
-    else if (op == "emp") { o.num(x.emplace(at_off(x.begin(), A(0)), static_cast<int>(A(1))) - x.begin()); }
-    else if (op == "inn") { T c = val(2); o.num(x.insert(at_off(x.begin(), A(0)), static_cast<std::size_t>(A(1)), c) - x.begin()); }
-    else if (op == "irg") { std::vector<T> src(s.xs.begin(), s.xs.end()); o.num(x.insert(at_off(x.begin(), A(0)), src.data(), src.data() + src.size()) - x.begin()); }
-    else if (op == "era") { o.num(x.erase(at_off(x.begin(), A(0))) - x.begin()); }
-    else if (op == "err") { o.num(x.erase(at_off(x.begin(), A(0)), at_off(x.begin(), A(1))) - x.begin()); }
-    else if (op == "clr") { x.clear(); }
-    else if (op == "rsz") { x.resize(static_cast<std::size_t>(A(0))); }
-    else if (op == "rsv") { T c = val(1); x.resize(static_cast<std::size_t>(A(0)), c); }
-    else if (op == "asn") { T c = val(1); x.assign(static_cast<std::size_t>(A(0)), c); }
-    else if (op == "asr") { std::vector<T> src(s.xs.begin(), s.xs.end()); x.assign(src.data(), src.data() + src.size()); }
-    else if (op == "swp") { v[0].swap(v[1]); }
-    else if (op == "cpa") { x = y; }
-    else if (op == "mva") { x = etl::move(y); y.clear(); }
-    else if (op == "cpc") { Vec c(x); o.b(c == x).num(static_cast<i64>(c.size())); for (auto const& e : c) { o.num(static_cast<int>(e)); } }
-    else if (op == "mrt") { Vec tmp(etl::move(x)); o.num(static_cast<i64>(tmp.size())); for (auto const& e : tmp) { o.num(static_cast<int>(e)); } x = etl::move(tmp); }
-    else if (op == "eif") { auto id = static_cast<int>(A(0)); o.num(static_cast<i64>(etl::erase_if(x, [&](T const& e) { return pred_of(id, static_cast<int>(e)); }))); }
-    else if (op == "erv") { o.num(static_cast<i64>(etl::erase(x, val(0)))); }
-    else if (op == "rel") { auto& a = v[0]; auto& b = v[1]; o.b(a == b).b(a != b).b(a < b).b(a <= b).b(a > b).b(a >= b); }
-    else if (op == "at") { o.num(static_cast<int>(x[static_cast<std::size_t>(A(0))])); }
-    else if (op == "fr") { o.num(static_cast<int>(x.front())); }
-    else if (op == "bk") { o.num(static_cast<int>(x.back())); }
-    else if (op == "sca") { auto& r = x; x = r; }
-    else if (op == "ssw") { x.swap(x); }
-    else { o.tok("unknown-step"); }
-}
-
-// ---- impl: stack<int, static_vector<int, N>> (observed through a derived class that exposes c)
-template <typename C>
-struct OpenStack : etl::stack<typename C::value_type, C> {
-    auto cont() const -> C const& { return this->c; }
-};
-template <typename St>
-static void st_step(Step const& s, St (&v)[2], Out& o)
-{
-    auto& x = v[s.t];
-    auto const& op = s.op;
-    auto A = [&](int i) { return s.a[static_cast<std::size_t>(i)]; };
-    if (op == "pb") { int c = static_cast<int>(A(0)); x.push(c); }
-    else if (op == "eb") { x.emplace(static_cast<int>(A(0))); }
-    else if (op == "pop") { x.pop(); }
-    else if (op == "bk") { o.num(x.top()); }
-    else if (op == "swp") { v[0].swap(v[1]); }
-    else if (op == "rel") { auto& a = v[0]; auto& b = v[1]; o.b(a == b).b(a != b).b(a < b).b(a <= b).b(a > b).b(a >= b); }
-    else if (op == "cpc") { St c(x); o.b(c == x).num(static_cast<i64>(c.size())); for (auto const& e : c.cont()) { o.num(e); } }
-    else { o.tok("unknown-step"); }
-}
-
-// ---- impl: inplace_vector
-template <typename Vec, typename T>
-static void iv_step(Step const& s, Vec* (&v)[2], Out& o)
-{
-    auto& x = *v[s.t];
-    auto const& op = s.op;
-    auto A = [&](int i) { return s.a[static_cast<std::size_t>(i)]; };
-    if (op == "tpb") { T c(static_cast<int>(A(0))); auto* p = (A(0) % 2 == 0) ? x.try_push_back(c) : x.try_emplace_back(static_cast<int>(A(0))); o.b(p != nullptr); if (p != nullptr && static_cast<int>(*p) != static_cast<int>(A(0))) { o.tok("bad-ptr"); } }
-    else if (op == "upb") { if (A(0) % 2 == 0) { x.unchecked_push_back(T(static_cast<int>(A(0)))); } else { x.unchecked_emplace_back(static_cast<int>(A(0))); } }
-    else if (op == "pop") { x.pop_back(); }
-    else if (op == "clr") { x.clear(); }
-    else if (op == "at") { o.num(static_cast<int>(x[static_cast<std::size_t>(A(0))])); }
-    else if (op == "fr") { o.num(static_cast<int>(x.front())); }
-    else if (op == "bk") { o.num(static_cast<int>(x.back())); }
-    else if (op == "ivc") { Vec c(x); o.num(static_cast<i64>(c.size())); for (auto const& e : c) { o.num(static_cast<int>(e)); } }
-    else if (op == "ivm") {
-        // the moved-from state is valid but unspecified (trivial T: bitwise copy, source keeps its size;
-        // non-trivial T: source emptied): the op is "move-construct, then clear() the source"
-        Vec c(etl::move(x)); x.clear();
-        o.num(static_cast<i64>(c.size())); for (auto const& e : c) { o.num(static_cast<int>(e)); }
-    }
-    else { o.tok("unknown-step"); }
-}
-
-static bool g_contract_seen = false;
+inline bool g_contract_seen = false;
 template <typename F>
 static void run_steps(std::vector<Step> const& steps, Out& impl, F&& one)
 {
@@ -247,12 +149,220 @@ static void run_steps(std::vector<Step> const& steps, Out& impl, F&& one)
     }
 }
 
+template <typename Vec>
+static void observe_one(Out& o, Vec const& v)
+{
+    o.num(static_cast<i64>(v.size())).b(v.empty());
+    if constexpr (requires { v.full(); }) { o.b(v.full()); } else { o.b(v.size() == v.capacity()); }
+    o.num(static_cast<i64>(v.end() - v.begin()));
+    for (auto const& x : v) { o.num(get(x)); }
+}
+template <typename Vec>
+static void print_vec(Out& o, Vec const& c)
+{
+    o.num(static_cast<i64>(c.size()));
+    for (auto const& e : c) { o.num(get(e)); }
+}
+
+// ---------------------------------------------------------------------------------------------------------------------
+// impl: static_vector
+template <typename Vec, typename T>
+static void sv_step(Step const& s, Vec (&v)[2], Out& o)
+{
+    constexpr bool copyable = std::is_copy_constructible_v<T>;
+    auto& x = v[s.t];
+    auto& y = v[1 - s.t];
+    auto const& cx = x;
+    auto const& op = s.op;
+    auto A = [&](int i) { return s.a[static_cast<std::size_t>(i)]; };
+    auto val = [&](int i) { return mk<T>(static_cast<int>(A(i))); };
+    auto unsupported = [&] { o.tok("unsupported-step"); };
+    if (op == "pb") { x.push_back(val(0)); }
+    else if (op == "eb") { x.emplace_back(mkarg<T>(static_cast<int>(A(0)))); }
+    else if (op == "pop") { x.pop_back(); }
+    else if (op == "icr") { if constexpr (copyable) { T c = val(1); o.num(x.insert(at_off(x.begin(), A(0)), c) - x.begin()); } else { unsupported(); } }
+    else if (op == "irv") { o.num(x.insert(at_off(x.begin(), A(0)), val(1)) - x.begin()); }
+    else if (op == "emp") { o.num(x.emplace(at_off(x.begin(), A(0)), mkarg<T>(static_cast<int>(A(1)))) - x.begin()); }
+    else if (op == "inn") { if constexpr (copyable) { T c = val(2); o.num(x.insert(at_off(x.begin(), A(0)), static_cast<std::size_t>(A(1)), c) - x.begin()); } else { unsupported(); } }
+    else if (op == "irg") { if constexpr (copyable) { auto src = mkvec<T>(s.xs); o.num(x.insert(at_off(x.begin(), A(0)), src.data(), src.data() + src.size()) - x.begin()); } else { unsupported(); } }
+    else if (op == "mir") { auto src = mkvec<T>(s.xs); o.num(x.move_insert(at_off(x.begin(), A(0)), src.data(), src.data() + src.size()) - x.begin()); }
+    else if (op == "era") { o.num(x.erase(at_off(x.begin(), A(0))) - x.begin()); }
+    else if (op == "err") { o.num(x.erase(at_off(x.begin(), A(0)), at_off(x.begin(), A(1))) - x.begin()); }
+    else if (op == "clr") { x.clear(); }
+    else if (op == "rsz") { x.resize(static_cast<std::size_t>(A(0))); }
+    else if (op == "rsv") { if constexpr (copyable) { T c = val(1); x.resize(static_cast<std::size_t>(A(0)), c); } else { unsupported(); } }
+    else if (op == "asn") { if constexpr (copyable) { T c = val(1); x.assign(static_cast<std::size_t>(A(0)), c); } else { unsupported(); } }
+    else if (op == "asr") { if constexpr (copyable) { auto src = mkvec<T>(s.xs); x.assign(src.data(), src.data() + src.size()); } else { unsupported(); } }
+    else if (op == "swp") { v[0].swap(v[1]); }
+    else if (op == "fsw") { using etl::swap; swap(v[0], v[1]); }
+    else if (op == "cpa") { if constexpr (copyable) { x = y; } else { unsupported(); } }
+    else if (op == "mva") { x = etl::move(y); y.clear(); }
+    else if (op == "cpc") { if constexpr (copyable) { Vec c(x); o.b(c == x); print_vec(o, c); } else { unsupported(); } }
+    else if (op == "mrt") { Vec tmp(etl::move(x)); print_vec(o, tmp); x = etl::move(tmp); }
+    else if (op == "eif") { auto id = static_cast<int>(A(0)); o.num(static_cast<i64>(etl::erase_if(x, [&](T const& e) { return pred_of(id, get(e)); }))); }
+    else if (op == "erv") { o.num(static_cast<i64>(etl::erase(x, val(0)))); }
+    else if (op == "rel") { auto& a = v[0]; auto& b = v[1]; o.b(a == b).b(a != b).b(a < b).b(a <= b).b(a > b).b(a >= b); }
+    else if (op == "at") { o.num(get(x[static_cast<std::size_t>(A(0))])); if (&cx[static_cast<std::size_t>(A(0))] != &x[static_cast<std::size_t>(A(0))]) { o.tok("const-mismatch"); } }
+    else if (op == "fr") { o.num(get(x.front())); if (&cx.front() != &x.front()) { o.tok("const-mismatch"); } }
+    else if (op == "bk") { o.num(get(x.back())); if (&cx.back() != &x.back()) { o.tok("const-mismatch"); } }
+    else if (op == "sca") { if constexpr (copyable) { auto& r = x; x = r; } else { unsupported(); } }
+    else if (op == "sma") { auto& r = x; x = etl::move(r); }
+    else if (op == "ssw") { x.swap(x); }
+    else if (op == "rit") {
+        auto pr = [&](auto rb, auto re) {
+            o.num(rb.base() - cx.begin()).num(re.base() - cx.begin()).num(re - rb);
+            for (auto it = rb; it != re; ++it) { o.num(get(*it)); }
+        };
+        if (A(0) == 0) { pr(x.rbegin(), x.rend()); } else if (A(0) == 1) { pr(cx.rbegin(), cx.rend()); } else { pr(x.crbegin(), x.crend()); }
+    }
+    else if (op == "cit") {
+        o.num(x.cbegin() - cx.begin()).num(x.cend() - cx.begin());
+        for (auto it = x.cbegin(); it != x.cend(); ++it) { o.num(get(*it)); }
+        if (cx.cbegin() != x.cbegin() || cx.cend() != x.cend() || cx.begin() != x.begin() || cx.end() != x.end()) { o.tok("const-mismatch"); }
+    }
+    else if (op == "sat") { auto& r = x[static_cast<std::size_t>(A(0))]; r = val(1); o.num(&r - x.data()); }
+    else if (op == "sfr") { auto& r = x.front(); r = val(0); o.num(&r - x.data()); }
+    else if (op == "sbk") { auto& r = x.back(); r = val(0); o.num(&r - x.data()); }
+    else if (op == "dat") {
+        o.num(x.end() - x.data());
+        for (std::size_t k = 0; k < x.size(); ++k) { o.num(get(x.data()[k])); }
+        if (cx.data() != x.data() || x.data() != x.begin()) { o.tok("const-mismatch"); }
+    }
+    else if (op == "mxs") { o.num(static_cast<i64>(x.max_size())).num(static_cast<i64>(x.capacity())); }
+    else if (op == "ctn") { Vec tmp(static_cast<std::size_t>(A(0))); print_vec(o, tmp); x = etl::move(tmp); }
+    else if (op == "ctv") { if constexpr (copyable) { T c = val(1); Vec tmp(static_cast<std::size_t>(A(0)), c); print_vec(o, tmp); x = etl::move(tmp); } else { unsupported(); } }
+    else if (op == "ctr") { if constexpr (copyable) { auto src = mkvec<T>(s.xs); Vec tmp(src.data(), src.data() + src.size()); print_vec(o, tmp); x = etl::move(tmp); } else { unsupported(); } }
+    else if (op == "cpi") {
+        if constexpr (copyable) {
+            Vec c(x);
+            auto mut = [&](Vec& w) { if (!w.empty()) { w[0] = val(1); w.pop_back(); } else if (!w.full()) { w.push_back(val(1)); } };
+            if (A(0) != 0) { mut(c); } else { mut(x); }
+            print_vec(o, c);
+        } else { unsupported(); }
+    }
+    else { o.tok("unknown-step"); }
+}
+
+// ---- impl: stack<T, static_vector<T, N>> (observed through a derived class that exposes c)
+template <typename C>
+struct OpenStack : etl::stack<typename C::value_type, C> {
+    using base = etl::stack<typename C::value_type, C>;
+    using base::base;
+    auto cont() const -> C const& { return this->c; }
+};
+template <typename St, typename C, typename T>
+static void st_step(Step const& s, St (&v)[2], Out& o)
+{
+    auto& x = v[s.t];
+    auto& y = v[1 - s.t];
+    auto const& cx = x;
+    auto const& op = s.op;
+    auto A = [&](int i) { return s.a[static_cast<std::size_t>(i)]; };
+    auto val = [&](int i) { return mk<T>(static_cast<int>(A(i))); };
+    if (op == "pb") { T c = val(0); x.push(c); }
+    else if (op == "pbr") { x.push(val(0)); }
+    else if (op == "eb") { x.emplace(mkarg<T>(static_cast<int>(A(0)))); }
+    else if (op == "pop") { x.pop(); }
+    else if (op == "bk") { o.num(get(x.top())); if (&cx.top() != &x.top()) { o.tok("const-mismatch"); } }
+    else if (op == "sbk") { x.top() = val(0); }
+    else if (op == "siz") { o.num(static_cast<i64>(x.size())).b(x.empty()); }
+    else if (op == "swp") { v[0].swap(v[1]); }
+    else if (op == "fsw") { using etl::swap; swap(static_cast<typename St::base&>(v[0]), static_cast<typename St::base&>(v[1])); }
+    else if (op == "rel") { auto& a = v[0]; auto& b = v[1]; o.b(a == b).b(a != b).b(a < b).b(a <= b).b(a > b).b(a >= b); }
+    else if (op == "cpc") { St c(x); o.b(c == x); print_vec(o, c.cont()); }
+    else if (op == "mvc") { St c(etl::move(x)); x = St{}; print_vec(o, c.cont()); }
+    else if (op == "cpa") { x = y; }
+    else if (op == "mva") { x = etl::move(y); y = St{}; }
+    else if (op == "sca") { auto& r = x; x = r; }
+    else if (op == "fcc") { auto src = mkvec<T>(s.xs); C cont(src.data(), src.data() + src.size()); St tmp(cont); o.num(static_cast<i64>(tmp.size())); x = etl::move(tmp); }
+    else if (op == "fcr") { auto src = mkvec<T>(s.xs); C cont(src.data(), src.data() + src.size()); St tmp(etl::move(cont)); o.num(static_cast<i64>(tmp.size())); x = etl::move(tmp); }
+    else { o.tok("unknown-step"); }
+}
+
+// ---- impl: inplace_vector
+template <typename Vec, typename T>
+static void iv_step(Step const& s, Vec* (&v)[2], Out& o)
+{
+    constexpr bool copyable = std::is_copy_constructible_v<T>;
+    auto& x = *v[s.t];
+    auto& y = *v[1 - s.t];
+    auto const& cx = x;
+    auto const& op = s.op;
+    auto A = [&](int i) { return s.a[static_cast<std::size_t>(i)]; };
+    auto val = [&](int i) { return mk<T>(static_cast<int>(A(i))); };
+    auto unsupported = [&] { o.tok("unsupported-step"); };
+    auto ptr = [&](T* p, int want) { o.b(p != nullptr); if (p != nullptr && (get(*p) != want || p != &x.back())) { o.tok("bad-ptr"); } };
+    auto ref = [&](T& r, int want) { if (get(r) != want || &r != &x.back()) { o.tok("bad-ref"); } };
+    if (op == "tpb") {
+        auto w = static_cast<int>(A(0));
+        if constexpr (copyable) { if (w % 2 == 0) { T c = val(0); ptr(x.try_push_back(c), w); } else { ptr(x.try_emplace_back(mkarg<T>(w)), w); } }
+        else { ptr(x.try_emplace_back(mkarg<T>(w)), w); }
+    }
+    else if (op == "fil") {
+        // A(0) calls in a row, alternating between the three try_ members; how many answered non-null
+        i64 cnt = 0;
+        auto w  = static_cast<int>(A(1));
+        for (i64 k = 0; k < A(0); ++k) {
+            T* p = nullptr;
+            if constexpr (copyable) { if (k % 3 == 0) { T c = val(1); p = x.try_push_back(c); } else if (k % 3 == 1) { p = x.try_push_back(val(1)); } else { p = x.try_emplace_back(mkarg<T>(w)); } }
+            else { if (k % 2 == 0) { p = x.try_push_back(val(1)); } else { p = x.try_emplace_back(mkarg<T>(w)); } }
+            if (p != nullptr) { ++cnt; if (get(*p) != w || p != &x.back()) { o.tok("bad-ptr"); } }
+        }
+        o.num(cnt);
+    }
+    else if (op == "tem") { auto w = static_cast<int>(A(0)); ptr(x.try_emplace_back(mkarg<T>(w)), w); }
+    else if (op == "tpr") { auto w = static_cast<int>(A(0)); ptr(x.try_push_back(val(0)), w); }
+    else if (op == "upb") {
+        auto w = static_cast<int>(A(0));
+        if constexpr (copyable) { if (w % 2 == 0) { T c = val(0); ref(x.unchecked_push_back(c), w); } else { ref(x.unchecked_emplace_back(mkarg<T>(w)), w); } }
+        else { ref(x.unchecked_emplace_back(mkarg<T>(w)), w); }
+    }
+    else if (op == "uem") { auto w = static_cast<int>(A(0)); ref(x.unchecked_emplace_back(mkarg<T>(w)), w); }
+    else if (op == "upr") { auto w = static_cast<int>(A(0)); ref(x.unchecked_push_back(val(0)), w); }
+    else if (op == "pop") { x.pop_back(); }
+    else if (op == "clr") { x.clear(); }
+    else if (op == "at") { o.num(get(x[static_cast<std::size_t>(A(0))])); if (&cx[static_cast<std::size_t>(A(0))] != &x[static_cast<std::size_t>(A(0))]) { o.tok("const-mismatch"); } }
+    else if (op == "fr") { o.num(get(x.front())); if (&cx.front() != &x.front()) { o.tok("const-mismatch"); } }
+    else if (op == "bk") { o.num(get(x.back())); if (&cx.back() != &x.back()) { o.tok("const-mismatch"); } }
+    else if (op == "ivc") { if constexpr (copyable) { Vec c(x); print_vec(o, c); } else { unsupported(); } }
+    else if (op == "ivm") {
+        // the moved-from state is valid but unspecified (trivial T: bitwise copy, source keeps its size;
+        // non-trivial T: source emptied): the op is "move-construct, then clear() the source"
+        Vec c(etl::move(x)); x.clear();
+        print_vec(o, c);
+    }
+    else if (op == "cpa") { if constexpr (copyable) { x = y; } else { unsupported(); } }
+    else if (op == "mva") { x = etl::move(y); y.clear(); }
+    else if (op == "sca") { if constexpr (copyable) { auto& r = x; x = r; } else { unsupported(); } }
+    else if (op == "sma") { auto& r = x; x = etl::move(r); }
+    else if (op == "sat") { auto& r = x[static_cast<std::size_t>(A(0))]; r = val(1); o.num(&r - x.data()); }
+    else if (op == "sfr") { auto& r = x.front(); r = val(0); o.num(&r - x.data()); }
+    else if (op == "sbk") { auto& r = x.back(); r = val(0); o.num(&r - x.data()); }
+    else if (op == "dat") {
+        o.num(x.end() - x.data());
+        for (std::size_t k = 0; k < x.size(); ++k) { o.num(get(x.data()[k])); }
+        if (cx.data() != x.data() || x.data() != x.begin() || cx.begin() != x.begin() || cx.end() != x.end()) { o.tok("const-mismatch"); }
+    }
+    else if (op == "mxs") { o.num(static_cast<i64>(Vec::max_size())).num(static_cast<i64>(Vec::capacity())); }
+    else if (op == "cpi") {
+        if constexpr (copyable) {
+            Vec c(x);
+            auto mut = [&](Vec& w) { if (!w.empty()) { w[0] = val(1); w.pop_back(); } else { (void)w.try_push_back(val(1)); } };
+            if (A(0) != 0) { mut(c); } else { mut(x); }
+            print_vec(o, c);
+        } else { unsupported(); }
+    }
+    else { o.tok("unknown-step"); }
+}
+
 template <std::size_t N, typename T>
 static void run_sv(std::vector<Step> const& steps, Out& impl)
 {
-    long before = Tracked::live;
+    long before = g_live;
     {
         using Vec = etl::static_vector<T, N>;
+        static_assert(std::is_copy_assignable_v<Vec> == std::is_copy_constructible_v<T>);
+        static_assert(std::is_move_assignable_v<Vec>);
         Vec v[2];
         run_steps(steps, impl, [&](Step const& s, Out& o) {
             sv_step<Vec, T>(s, v, o);
@@ -261,27 +371,35 @@ static void run_sv(std::vector<Step> const& steps, Out& impl)
         });
     }
     // leaving a call through the assert handler (longjmp) skips destructors of temporaries: no leak verdict then
-    impl.tok("; live").num(g_contract_seen ? 0 : Tracked::live - before);
+    impl.tok("; live").num((g_contract_seen || !counted_v<T>) ? 0 : g_live - before);
 }
-template <std::size_t N>
+template <std::size_t N, typename T>
 static void run_stack(std::vector<Step> const& steps, Out& impl)
 {
-    using C  = etl::static_vector<int, N>;
-    using St = OpenStack<C>;
-    St v[2];
-    run_steps(steps, impl, [&](Step const& s, Out& o) {
-        st_step(s, v, o);
-        o.tok("/"); observe_one(o, v[0].cont()); observe_one(o, v[1].cont());
-        if (v[0].size() != v[0].cont().size() || v[0].empty() != v[0].cont().empty()) { o.tok("adapter-mismatch"); }
-    });
-    impl.tok("; live").num(0);
+    long before = g_live;
+    {
+        using C  = etl::static_vector<T, N>;
+        using St = OpenStack<C>;
+        static_assert(std::is_copy_assignable_v<etl::stack<T, C>> && std::is_move_assignable_v<etl::stack<T, C>>);
+        St v[2];
+        run_steps(steps, impl, [&](Step const& s, Out& o) {
+            st_step<St, C, T>(s, v, o);
+            o.tok("/"); observe_one(o, v[0].cont()); observe_one(o, v[1].cont());
+            for (auto const& st : v) {
+                if (st.size() != st.cont().size() || st.empty() != st.cont().empty()) { o.tok("adapter-mismatch"); }
+                if (!st.empty() && &st.top() != &st.cont().back()) { o.tok("adapter-mismatch"); }
+            }
+        });
+    }
+    impl.tok("; live").num((g_contract_seen || !counted_v<T>) ? 0 : g_live - before);
 }
 template <std::size_t N, typename T>
 static void run_iv(std::vector<Step> const& steps, Out& impl)
 {
-    long before = Tracked::live;
+    long before = g_live;
     {
         using Vec = etl::inplace_vector<T, N>;
+        static_assert(std::is_copy_assignable_v<Vec> && std::is_move_assignable_v<Vec>);
         Vec a{};
         Vec b{};
         Vec* v[2] = {&a, &b};
@@ -290,43 +408,260 @@ static void run_iv(std::vector<Step> const& steps, Out& impl)
             o.tok("/");
             for (auto* p : v) {
                 o.num(static_cast<i64>(p->size())).b(p->empty()).b(p->size() == p->capacity()).num(static_cast<i64>(p->end() - p->begin()));
-                for (auto const& e : *p) { o.num(static_cast<int>(e)); }
+                for (auto const& e : *p) { o.num(get(e)); }
                 if (p->capacity() != N || p->max_size() != N) { o.tok("capacity-changed"); }
             }
         });
     }
     // leaving a call through the assert handler (longjmp) skips destructors of temporaries: no leak verdict then
-    impl.tok("; live").num(g_contract_seen ? 0 : Tracked::live - before);
+    impl.tok("; live").num((g_contract_seen || !counted_v<T>) ? 0 : g_live - before);
 }
 
-template <typename F>
-static bool with_cap(i64 cap, F&& f)
+template <std::size_t... Ns, typename F>
+static bool with_caps(i64 cap, F&& f)
 {
-    switch (cap) {
-    case 0: f.template operator()<0>(); return true;
-    case 1: f.template operator()<1>(); return true;
-    case 2: f.template operator()<2>(); return true;
-    case 3: f.template operator()<3>(); return true;
-    case 4: f.template operator()<4>(); return true;
-    case 8: f.template operator()<8>(); return true;
-    case 16: f.template operator()<16>(); return true;
-    case 254: f.template operator()<254>(); return true;
-    case 255: f.template operator()<255>(); return true;
-    case 256: f.template operator()<256>(); return true;
+    bool hit = false;
+    ((cap == static_cast<i64>(Ns) ? (f.template operator()<Ns>(), hit = true) : false), ...);
+    return hit;
+}
+
+static bool pred_of(int id, int v)
+{
+    auto key = v >= 0 ? v / 16 : -((-v + 15) / 16);
+    switch (id) {
+    case 0: return (key % 2) == 0;
+    case 1: return key == 1;
+    case 2: return key < 2;
+    case 3: return true;
     default: return false;
     }
 }
-template <typename F>
-static bool with_small_cap(i64 cap, F&& f)
+
+// ---------------------------------------------------------------------------------------------------------------------
+// the parts: part k answers for the flavours / capacities it instantiates (-1 = not mine)
+#define MK_SV(T, ...) (with_caps<__VA_ARGS__>(cap, [&]<std::size_t N>() { run_sv<N, T>(steps, impl); }) ? 1 : -1)
+#define MK_IV(T, ...) (with_caps<__VA_ARGS__>(cap, [&]<std::size_t N>() { run_iv<N, T>(steps, impl); }) ? 1 : -1)
+#define MK_ST(T, ...) (with_caps<__VA_ARGS__>(cap, [&]<std::size_t N>() { run_stack<N, T>(steps, impl); }) ? 1 : -1)
+using Steps = std::vector<Step>;
+int c01_part0(std::string const& fl, i64 cap, Steps const& steps, Out& impl);
+int c01_part1(std::string const& fl, i64 cap, Steps const& steps, Out& impl);
+int c01_part2(std::string const& fl, i64 cap, Steps const& steps, Out& impl);
+int c01_part3(std::string const& fl, i64 cap, Steps const& steps, Out& impl);
+int c01_part4(std::string const& fl, i64 cap, Steps const& steps, Out& impl);
+int c01_part5(std::string const& fl, i64 cap, Steps const& steps, Out& impl);
+int c01_part6(std::string const& fl, i64 cap, Steps const& steps, Out& impl);
+int c01_part7(std::string const& fl, i64 cap, Steps const& steps, Out& impl);
+
+#if PART(0)
+int c01_part0(std::string const& fl, i64 cap, Steps const& steps, Out& impl)
 {
-    switch (cap) {
-    case 0: f.template operator()<0>(); return true;
-    case 1: f.template operator()<1>(); return true;
-    case 3: f.template operator()<3>(); return true;
-    case 4: f.template operator()<4>(); return true;
-    case 16: f.template operator()<16>(); return true;
-    default: return false;
+    if (fl == "sv_int") { return MK_SV(int, 0, 1, 2, 3, 4, 8, 16); }
+    return -1;
+}
+#endif
+#if PART(1)
+int c01_part1(std::string const& fl, i64 cap, Steps const& steps, Out& impl)
+{
+    if (fl == "sv_int") { return MK_SV(int, 254, 255, 256, 65534, 65535, 65536); }
+    return -1;
+}
+#endif
+#if PART(2)
+int c01_part2(std::string const& fl, i64 cap, Steps const& steps, Out& impl)
+{
+    if (fl == "sv_trk") { return MK_SV(Tracked, 0, 1, 3, 4, 16); }
+    if (fl == "sv_pod") { return MK_SV(Pod, 3, 16); }
+    return -1;
+}
+#endif
+#if PART(3)
+int c01_part3(std::string const& fl, i64 cap, Steps const& steps, Out& impl)
+{
+    if (fl == "sv_nxc") { return MK_SV(NxCopy, 1, 3, 4); }
+    if (fl == "sv_str") { return MK_SV(std::string, 0, 1, 3, 4); }
+    return -1;
+}
+#endif
+#if PART(4)
+int c01_part4(std::string const& fl, i64 cap, Steps const& steps, Out& impl)
+{
+    if (fl == "sv_mov") { return MK_SV(MoveOnly, 0, 1, 3, 4, 16); }
+    return -1;
+}
+#endif
+#if PART(5)
+int c01_part5(std::string const& fl, i64 cap, Steps const& steps, Out& impl)
+{
+    if (fl == "stack") { return MK_ST(int, 0, 1, 3, 4, 16, 256); }
+    if (fl == "st_trk") { return MK_ST(Tracked, 1, 3, 4); }
+    if (fl == "st_str") { return MK_ST(std::string, 1, 3); }
+    return -1;
+}
+#endif
+#if PART(6)
+int c01_part6(std::string const& fl, i64 cap, Steps const& steps, Out& impl)
+{
+    if (fl == "iv_int") { return MK_IV(int, 0, 1, 2, 3, 4, 8, 16, 254, 255, 256, 65534, 65535, 65536); }
+    return -1;
+}
+#endif
+#if PART(7)
+int c01_part7(std::string const& fl, i64 cap, Steps const& steps, Out& impl)
+{
+    if (fl == "iv_trk") { return MK_IV(Tracked, 0, 1, 3, 4, 16); }
+    if (fl == "iv_nxc") { return MK_IV(NxCopy, 1, 3, 4); }
+    if (fl == "iv_mov") { return MK_IV(MoveOnly, 0, 1, 3, 4); }
+    if (fl == "iv_str") { return MK_IV(std::string, 1, 3, 4); }
+    if (fl == "iv_pod") { return MK_IV(Pod, 3, 16); }
+    return -1;
+}
+#endif
+
+#if PART(0)
+// ---------------------------------------------------------------------------------------------------------------------
+static std::vector<Step> parse(Toks& in)
+{
+    std::vector<Step> steps;
+    auto k = in.num();
+    for (i64 i = 0; i < k; ++i) {
+        Step s;
+        s.op = in.str();
+        auto need = [&](int n) { for (int j = 0; j < n; ++j) { s.a.push_back(in.num()); } };
+        auto is = [&](std::initializer_list<char const*> l) { for (auto const* e : l) { if (s.op == e) { return true; } } return false; };
+        if (is({"swp", "rel", "fsw"})) { }
+        else {
+            s.t = static_cast<int>(in.num());
+            if (is({"pb", "pbr", "eb", "era", "rsz", "eif", "erv", "at", "tpb", "upb", "tem", "tpr", "uem", "upr", "rit", "sfr", "sbk", "ctn"})) { need(1); }
+            else if (is({"icr", "irv", "emp", "err", "rsv", "asn", "sat", "ctv", "cpi", "fil"})) { need(2); }
+            else if (is({"inn"})) { need(3); }
+            else if (is({"irg", "mir"})) { need(1); s.xs = in.list(); }
+            else if (is({"asr", "ctr", "fcc", "fcr"})) { s.xs = in.list(); }
+        }
+        steps.push_back(s);
     }
+    return steps;
+}
+
+using RV = std::vector<int>;
+static void observe_std(Out& o, RV const& v, std::size_t cap)
+{
+    o.num(static_cast<i64>(v.size())).b(v.empty()).b(v.size() == cap).num(static_cast<i64>(v.size()));
+    for (auto x : v) { o.num(x); }
+}
+static void print_std(Out& o, RV const& c)
+{
+    o.num(static_cast<i64>(c.size()));
+    for (auto e : c) { o.num(e); }
+}
+static void ref_mutate(RV& w, int x, std::size_t cap)
+{
+    if (!w.empty()) { w[0] = x; w.pop_back(); } else if (cap > 0) { w.push_back(x); }
+}
+
+// ---- reference: std::vector with the documented preconditions; false = outside the domain
+static bool std_step(Step const& s, RV (&v)[2], std::size_t cap, Out& o)
+{
+    auto& x   = v[s.t];
+    auto& y   = v[1 - s.t];
+    auto sz   = static_cast<i64>(x.size());
+    auto room = static_cast<i64>(cap) - sz;
+    auto icap = static_cast<i64>(cap);
+    auto const& op = s.op;
+    auto A = [&](int i) { return s.a[static_cast<std::size_t>(i)]; };
+    auto I = [&](int i) { return static_cast<int>(s.a[static_cast<std::size_t>(i)]); };
+    if (op == "pb" || op == "eb" || op == "upb" || op == "uem" || op == "upr") { if (room < 1) { return false; } x.push_back(I(0)); }
+    else if (op == "pop") { if (sz == 0) { return false; } x.pop_back(); }
+    else if (op == "icr" || op == "irv" || op == "emp") {
+        if (A(0) < 0 || A(0) > sz || room < 1) { return false; }
+        { auto it = x.insert(x.begin() + A(0), I(1)); o.num(it - x.begin()); }
+    } else if (op == "inn") {
+        if (A(0) < 0 || A(0) > sz || A(1) < 0 || A(1) > room) { return false; }
+        { auto it = x.insert(x.begin() + A(0), static_cast<std::size_t>(A(1)), I(2)); o.num(it - x.begin()); }
+    } else if (op == "irg" || op == "mir") {
+        if (A(0) < 0 || A(0) > sz || static_cast<i64>(s.xs.size()) > room) { return false; }
+        RV src(s.xs.begin(), s.xs.end());
+        { auto it = x.insert(x.begin() + A(0), std::make_move_iterator(src.begin()), std::make_move_iterator(src.end())); o.num(it - x.begin()); }
+    } else if (op == "era") {
+        if (A(0) < 0 || A(0) >= sz) { return false; }
+        o.num(x.erase(x.begin() + A(0)) - x.begin());
+    } else if (op == "err") {
+        if (A(0) < 0 || A(0) > A(1) || A(1) > sz) { return false; }
+        o.num(x.erase(x.begin() + A(0), x.begin() + A(1)) - x.begin());
+    } else if (op == "clr") { x.clear(); }
+    else if (op == "rsz") { if (A(0) < 0 || A(0) > icap) { return false; } x.resize(static_cast<std::size_t>(A(0))); }
+    else if (op == "rsv") { if (A(0) < 0 || A(0) > icap) { return false; } x.resize(static_cast<std::size_t>(A(0)), I(1)); }
+    else if (op == "asn") { if (A(0) < 0 || A(0) > icap) { return false; } x.assign(static_cast<std::size_t>(A(0)), I(1)); }
+    else if (op == "asr") { if (s.xs.size() > cap) { return false; } RV src(s.xs.begin(), s.xs.end()); x.assign(src.begin(), src.end()); }
+    else if (op == "swp") { v[0].swap(v[1]); }
+    else if (op == "fsw") { using std::swap; swap(v[0], v[1]); }
+    else if (op == "cpa") { x = y; }
+    else if (op == "mva") { x = std::move(y); y.clear(); }
+    else if (op == "cpc") { RV c(x); o.b(c == x); print_std(o, c); }
+    else if (op == "mrt") { RV tmp(std::move(x)); print_std(o, tmp); x = std::move(tmp); }
+    else if (op == "eif") { auto id = I(0); o.num(static_cast<i64>(std::erase_if(x, [&](int e) { return pred_of(id, e); }))); }
+    else if (op == "erv") { o.num(static_cast<i64>(std::erase(x, I(0)))); }
+    else if (op == "rel") { auto& a = v[0]; auto& b = v[1]; o.b(a == b).b(a != b).b(a < b).b(a <= b).b(a > b).b(a >= b); }
+    else if (op == "at") { if (A(0) < 0 || A(0) >= sz) { return false; } o.num(x[static_cast<std::size_t>(A(0))]); }
+    else if (op == "fr") { if (sz == 0) { return false; } o.num(x.front()); }
+    else if (op == "bk") { if (sz == 0) { return false; } o.num(x.back()); }
+    else if (op == "sca") { auto& r = x; x = r; }
+    else if (op == "sma") { }   // self-move-assignment leaves a std::vector in a valid but unspecified state; the fixed-capacity vectors keep their value
+    else if (op == "ssw") { x.swap(x); }
+    else if (op == "rit") {
+        o.num(x.rbegin().base() - x.begin()).num(x.rend().base() - x.begin()).num(x.rend() - x.rbegin());
+        for (auto it = x.rbegin(); it != x.rend(); ++it) { o.num(*it); }
+    }
+    else if (op == "cit") { o.num(x.cbegin() - x.begin()).num(x.cend() - x.begin()); for (auto it = x.cbegin(); it != x.cend(); ++it) { o.num(*it); } }
+    else if (op == "sat") { if (A(0) < 0 || A(0) >= sz) { return false; } auto& r = x[static_cast<std::size_t>(A(0))]; r = I(1); o.num(&r - x.data()); }
+    else if (op == "sfr") { if (sz == 0) { return false; } auto& r = x.front(); r = I(0); o.num(&r - x.data()); }
+    else if (op == "sbk") { if (sz == 0) { return false; } auto& r = x.back(); r = I(0); o.num(&r - x.data()); }
+    else if (op == "dat") { o.num((x.data() + x.size()) - x.data()); for (std::size_t k = 0; k < x.size(); ++k) { o.num(x.data()[k]); } }
+    else if (op == "mxs") { o.num(icap).num(icap); }   // [inplace.vector.capacity]: max_size() == capacity() == N
+    else if (op == "ctn") { if (A(0) < 0 || A(0) > icap) { return false; } RV tmp(static_cast<std::size_t>(A(0))); print_std(o, tmp); x = std::move(tmp); }
+    else if (op == "ctv") { if (A(0) < 0 || A(0) > icap) { return false; } RV tmp(static_cast<std::size_t>(A(0)), I(1)); print_std(o, tmp); x = std::move(tmp); }
+    else if (op == "ctr") { if (s.xs.size() > cap) { return false; } RV tmp(s.xs.begin(), s.xs.end()); print_std(o, tmp); x = std::move(tmp); }
+    else if (op == "cpi") { RV c(x); if (A(0) != 0) { ref_mutate(c, I(1), cap); } else { ref_mutate(x, I(1), cap); } print_std(o, c); }
+    // inplace_vector interface
+    else if (op == "tpb" || op == "tem" || op == "tpr") { if (room < 1) { o.b(false); } else { x.push_back(I(0)); o.b(true); } }
+    else if (op == "fil") { i64 cnt = 0; for (i64 k = 0; k < A(0); ++k) { if (static_cast<i64>(x.size()) < icap) { x.push_back(I(1)); ++cnt; } } o.num(cnt); }
+    else if (op == "ivc") { RV c(x); print_std(o, c); }
+    else if (op == "ivm") { RV c(std::move(x)); x.clear(); print_std(o, c); }
+    else { return false; }
+    return true;
+}
+
+// ---- reference: std::stack<int, std::vector<int>>
+struct RefStack : std::stack<int, RV> {
+    using std::stack<int, RV>::stack;
+    auto cont() const -> RV const& { return this->c; }
+};
+static bool std_stack_step(Step const& s, RefStack (&v)[2], std::size_t cap, Out& o)
+{
+    auto& x   = v[s.t];
+    auto& y   = v[1 - s.t];
+    auto sz   = static_cast<i64>(x.size());
+    auto room = static_cast<i64>(cap) - sz;
+    auto const& op = s.op;
+    auto I = [&](int i) { return static_cast<int>(s.a[static_cast<std::size_t>(i)]); };
+    if (op == "pb") { if (room < 1) { return false; } int c = I(0); x.push(c); }
+    else if (op == "pbr") { if (room < 1) { return false; } x.push(I(0)); }
+    else if (op == "eb") { if (room < 1) { return false; } x.emplace(I(0)); }
+    else if (op == "pop") { if (sz == 0) { return false; } x.pop(); }
+    else if (op == "bk") { if (sz == 0) { return false; } o.num(x.top()); }
+    else if (op == "sbk") { if (sz == 0) { return false; } x.top() = I(0); }
+    else if (op == "siz") { o.num(static_cast<i64>(x.size())).b(x.empty()); }
+    else if (op == "swp") { v[0].swap(v[1]); }
+    else if (op == "fsw") { using std::swap; swap(static_cast<std::stack<int, RV>&>(v[0]), static_cast<std::stack<int, RV>&>(v[1])); }
+    else if (op == "rel") { auto& a = v[0]; auto& b = v[1]; o.b(a == b).b(a != b).b(a < b).b(a <= b).b(a > b).b(a >= b); }
+    else if (op == "cpc") { RefStack c(x); o.b(c == x); print_std(o, c.cont()); }
+    else if (op == "mvc") { RefStack c(std::move(x)); x = RefStack{}; print_std(o, c.cont()); }
+    else if (op == "cpa") { x = y; }
+    else if (op == "mva") { x = std::move(y); y = RefStack{}; }
+    else if (op == "sca") { auto& r = x; x = r; }
+    else if (op == "fcc") { if (s.xs.size() > cap) { return false; } RV cont(s.xs.begin(), s.xs.end()); RefStack tmp(cont); o.num(static_cast<i64>(tmp.size())); x = std::move(tmp); }
+    else if (op == "fcr") { if (s.xs.size() > cap) { return false; } RV cont(s.xs.begin(), s.xs.end()); RefStack tmp(std::move(cont)); o.num(static_cast<i64>(tmp.size())); x = std::move(tmp); }
+    else { return false; }
+    return true;
 }
 
 bool vh::run_case(std::string const& op, Toks& in, Out& impl, Out& ref)
@@ -335,27 +670,39 @@ bool vh::run_case(std::string const& op, Toks& in, Out& impl, Out& ref)
     auto flavour = in.str();
     auto cap     = in.num();
     auto steps   = parse(in);
-    bool ok      = false;
-    if (flavour == "sv_int") { ok = with_cap(cap, [&]<std::size_t N>() { run_sv<N, int>(steps, impl); }); }
-    else if (flavour == "sv_trk") { ok = with_small_cap(cap, [&]<std::size_t N>() { run_sv<N, Tracked>(steps, impl); }); }
-    else if (flavour == "stack") { ok = with_small_cap(cap, [&]<std::size_t N>() { run_stack<N>(steps, impl); }); }
-    else if (flavour == "iv_int") { ok = with_cap(cap, [&]<std::size_t N>() { run_iv<N, int>(steps, impl); }); }
-    else if (flavour == "iv_trk") { ok = with_small_cap(cap, [&]<std::size_t N>() { run_iv<N, Tracked>(steps, impl); }); }
-    if (!ok) { impl.tok("bad-instantiation"); return true; }
-    // reference
-    SV v[2];
-    v[0].reserve(static_cast<std::size_t>(cap) + 8);
-    v[1].reserve(static_cast<std::size_t>(cap) + 8);
-    Out r;
-    bool dom = true;
-    for (auto const& s : steps) {
-        Out so;
-        if (!std_step(s, v, static_cast<std::size_t>(cap), so)) { dom = false; break; }
-        so.tok("/"); observe_std(so, v[0], static_cast<std::size_t>(cap)); observe_std(so, v[1], static_cast<std::size_t>(cap));
-        r.tok(";"); r.tok(so.s);
+    int r        = -1;
+    using part_fn = int (*)(std::string const&, i64, Steps const&, Out&);
+    for (part_fn f : {c01_part0, c01_part1, c01_part2, c01_part3, c01_part4, c01_part5, c01_part6, c01_part7}) {
+        r = f(flavour, cap, steps, impl);
+        if (r != -1) { break; }
     }
-    if (dom) { r.tok("; live").num(0); ref = r; }
+    if (r == -1) { impl.tok("bad-instantiation"); return true; }
+    // reference
+    Out rr;
+    bool dom    = true;
+    auto ucap   = static_cast<std::size_t>(cap);
+    if (flavour.rfind("st", 0) == 0) {
+        RefStack v[2];
+        for (auto const& s : steps) {
+            Out so;
+            if (!std_stack_step(s, v, ucap, so)) { dom = false; break; }
+            so.tok("/"); observe_std(so, v[0].cont(), ucap); observe_std(so, v[1].cont(), ucap);
+            rr.tok(";"); rr.tok(so.s);
+        }
+    } else {
+        RV v[2];
+        v[0].reserve(ucap + 8);
+        v[1].reserve(ucap + 8);
+        for (auto const& s : steps) {
+            Out so;
+            if (!std_step(s, v, ucap, so)) { dom = false; break; }
+            so.tok("/"); observe_std(so, v[0], ucap); observe_std(so, v[1], ucap);
+            rr.tok(";"); rr.tok(so.s);
+        }
+    }
+    if (dom) { rr.tok("; live").num(0); ref = rr; }
     return true;
 }
 
 VERIF_MAIN()
+#endif
